@@ -225,32 +225,35 @@ Fixpoint oconcat {A} (l : list (outcome unit (list A))) : outcome unit (list A) 
   | x :: r => do a <- x; do b <- oconcat r; Ok (a ++ b)
   end.
 
+(** the node statements: start state, regular states, accepting states *)
+Definition node_lines (v : variant) (base : N) (d : dfa) (prefix : string) : list item :=
+  let start := d_start d in
+  let regular :=
+    filter (fun s => negb (memN s (d_accepting d)) && negb (s =? start)) (get_all_states v d) in
+  [ILine (LNodeDefault (if memN start (d_accepting d) then "doubleoctagon" else "octagon"));
+   state_line prefix base start]
+  ++ [ILine (LNodeDefault "circle")] ++ map (state_line prefix base) regular
+  ++ [ILine LBlank; ILine (LNodeDefault "doublecircle")]
+  ++ map (state_line prefix base) (d_accepting d) ++ [ILine LBlank].
+
+Definition cluster_block (prefix : string) (id : N) (inner : list item) : item :=
+  IBlock ("cluster_" +++ prefix +++ dec id)
+         (ILine (LAssignQ "label" ("subword " +++ dec id))
+          :: ILine (LAssign "color" "grey91")
+          :: ILine (LAssign "style" "filled") :: inner).
+
 (** [do_to_dot]; [nested] makes the lines of a within-word automaton (called with its own, empty,
     pool and its identifiers prefix) *)
 Definition do_to_dot (v : variant) (base : N) (subs : list dfa) (d : dfa) (prefix : string)
            (nested : dfa -> string -> outcome unit (list item)) : outcome unit (list item) :=
   do ids <- get_subwords d base;
-  let start := d_start d in
-  let head :=
-    [ILine (LNodeDefault (if memN start (d_accepting d) then "doubleoctagon" else "octagon"));
-     state_line prefix base start] in
-  let regular :=
-    filter (fun s => negb (memN s (d_accepting d)) && negb (s =? start)) (get_all_states v d) in
-  let nodes :=
-    head ++ [ILine (LNodeDefault "circle")] ++ map (state_line prefix base) regular
-         ++ [ILine LBlank; ILine (LNodeDefault "doublecircle")]
-         ++ map (state_line prefix base) (d_accepting d) ++ [ILine LBlank] in
   do clusters <-
      omap (fun p : N * N =>
-             let '(sub, id) := p in
-             do sd <- lookup_sub subs sub;
-             do inner <- nested sd (dec id +++ "_");
-             Ok (IBlock ("cluster_" +++ prefix +++ dec id)
-                        (ILine (LAssignQ "label" ("subword " +++ dec id))
-                         :: ILine (LAssign "color" "grey91")
-                         :: ILine (LAssign "style" "filled") :: inner))) ids;
+             do sd <- lookup_sub subs (fst p);
+             do inner <- nested sd (dec (snd p) +++ "_");
+             Ok (cluster_block prefix (snd p) inner)) ids;
   do edges <- oconcat (map (transition_lines v base subs ids d prefix) (iter_transitions d));
-  Ok (nodes ++ clusters ++ edges).
+  Ok (node_lines v base d prefix ++ clusters ++ edges).
 
 Definition dfa_items (v : variant) (base : N) (c : cdfa) : outcome unit (list item) :=
   do body <- do_to_dot v base (c_subs c) (c_main c) ""
@@ -455,3 +458,31 @@ Definition known_rx (pool : rpool) (r : regex) : bool :=
                                      end
                        | _ => false
                        end) (r_inputs r).
+
+(** ** Well-formedness of an automaton as the dump gives it (checked on every run on Rust's MIN):
+    every transition's input id is in the pool, the accepting states are listed once, every
+    within-word automaton a transition names is in the pool and has no within-word transitions. *)
+Definition inputs_in_range (d : dfa) : bool :=
+  forallb (fun t : N * N * N => match nthN (d_inputs d) (snd (fst t)) with Some _ => true | None => false end)
+          (iter_transitions d).
+
+Fixpoint nodupb (l : list N) : bool :=
+  match l with [] => true | x :: r => negb (memN x r) && nodupb r end.
+
+Definition wf_dfa (d : dfa) : bool := inputs_in_range d && nodupb (d_accepting d).
+
+Definition no_sub_trans (d : dfa) : bool :=
+  forallb (fun t : N * N * N => match nthN (d_inputs d) (snd (fst t)) with Some (ISub _ _) => false | _ => true end)
+          (iter_transitions d).
+
+Definition wf_cdfa (c : cdfa) : bool :=
+  wf_dfa (c_main c)
+  && forallb (fun t : N * N * N =>
+                match nthN (d_inputs (c_main c)) (snd (fst t)) with
+                | Some (ISub k _) =>
+                    match nthN (c_subs c) k with
+                    | Some sd => wf_dfa sd && no_sub_trans sd
+                    | None => false
+                    end
+                | _ => true
+                end) (iter_transitions (c_main c)).
